@@ -220,7 +220,7 @@ def scn_core(p, res):
     from .scn_spec import SPEC
     for fq, rows in SPEC.items():
         f = p.func(fq)
-        status, det = dtable.check(p, f, rows)
+        status, det = dtable.check(p, f, rows, inline=True, select=dtable.same_class_getter)
         name = fq.rsplit('.', 1)[1]
         if status == 'ok':
             res.ok('%s: %d case(s) agree with the reviewed table' % (fq, det))
